@@ -306,6 +306,20 @@ def gen_cases(rng, tier):
         if g.tm_in:
             c["family"] = "tmatch_in"
         cases.append(c)
+    # typed matchers over records of two types of ONE name whose identifiers (name + 32-bit hash over the unseparated
+    # field names and types) coincide: which fields a type has is a matter of the record at hand
+    for src in ["Type.varint == 7", "Type.string == 'abc'", "Type.varint > 3 or Type.string == 'abc'", "7 == Type.varint",
+                "'abc' in Type.string", "Type.varint.real == 7"]:
+        a = lambda s_, n_: ["t/col", [["string", "a", s_], ["varint", "b", n_]]]       # noqa: E731
+        b = lambda n_: ["t/col", [["varint", "astringb", n_]]]                          # noqa: E731
+        for recs in ([a("abc", 1), b(7), a("x", 7), b(1)], [b(7), a("abc", 7), b(7), a("q", 2)]):
+            cases.append({"src": src, "records": recs, "depth": 1})
+    # names that are not defined anywhere (not a field, helper or type) - among them proper PREFIXES of type names: Python
+    # raises NameError; an engine may refuse, it may not make up a value
+    for src in ["u", "dat", "strin", "var", "ne", "pa", "r.s == u", "r.n == 1 and dat", "not strin", "[ne, 1]", "foo", "r.s == x",
+                "b", "boo", "fl", "uint"]:
+        cases.append({"src": src, "records": [gen_record(ro_, "matching") for ro_ in [rng.fork("undef")] * 2], "depth": 1,
+                      "undefined": True})
     # constructs OUTSIDE the documented language (subscripts, conditional expressions, comprehensions, dict/set displays,
     # lambdas) under and/or: the interpreted engine may refuse them, but it may not hand out a value that is not Python's
     ro = rng.fork("outlang")
@@ -490,6 +504,12 @@ def oracle(case, obs):
         return None
     for i, o in enumerate(obs["per_record"]):
         ref = o["reference"]
+        if "error" in ref and case.get("undefined") and ref["error"] == "NameError":
+            for eng in ("interpreted", "compiled"):
+                if "error" not in o[eng]:
+                    return (f"`{case['src']}` on record {i}: the expression uses a name that is defined nowhere (Python: "
+                            f"NameError) but the {eng} engine evaluates it to {o[eng]['value']}")
+            continue
         if "error" in ref:
             continue  # some sub-expression is not defined on this record: no expectation
         for eng in ("interpreted", "compiled"):
